@@ -104,12 +104,19 @@ def c08_setter(ctx, case):
     s1, s2 = case["s1"], case["s2"]
     sig = {"row": row, "clause": "setter"}
     ctx.sig_on_exception = sig
+    # which attributes are assigned after the first evaluation, and in which order (drawn through s1's bits:
+    # a pure function of the case)
+    mode = ["sampling", "scale", "sampling+scale", "scale+sampling"][int(round(s1 * 1000 + s2 * 7)) % 4]
     a = est.build(row, x, p, NFFT=case["nfft"], sampling=s1, scale_by_freq=False)
     _ = a.psd
-    a.sampling = s2
-    a.scale_by_freq = True
-    b = est.build(row, x, p, NFFT=case["nfft"], sampling=s2, scale_by_freq=True)
-    ctx.cls(row)
+    _ = a.frequencies()               # the axis has been read under the old sampling frequency
+    for step in mode.split("+"):
+        if step == "sampling":
+            a.sampling = s2
+        else:
+            a.scale_by_freq = True
+    b = est.build(row, x, p, NFFT=case["nfft"], sampling=s2 if "sampling" in mode else s1, scale_by_freq="scale" in mode)
+    ctx.cls(row, "assign " + mode)
     ctx.nontrivial(s1 != s2)
     if row in ("pmusic", "pev"):
         est.compare_psd(ctx, row, est.psd_of(a), est.psd_of(b), "%s: psd after assigning sampling/scale_by_freq vs fresh object" % row, sig=sig, tol=1e-10)
@@ -162,3 +169,65 @@ def c08_arma2psd(ctx, case):
     ctx.check(not np.iscomplexobj(got) or float(np.max(np.abs(got.imag))) == 0, "arma2psd returned complex values")
     ctx.close(np.real(got), exp, "arma2psd vs (rho/T)|B|^2/|A|^2 (rho=%g, T=%g, NFFT=%d)" % (rho, T, nfft),
               rtol=1e-10, atol=1e-13 * float(np.max(exp)))
+
+
+# ---- arma2psd with roots close to the unit circle (narrow-band models) ----------
+@st.composite
+def narrow_case(draw):
+    nfft = draw(st.sampled_from([16, 17, 32, 64, 100, 101, 128]))
+    nroots = draw(st.integers(1, 3))
+    roots = []
+    for _ in range(nroots):
+        k = draw(st.integers(0, nfft - 1))                      # on-grid angle: |A(f_k)| = 1 - r there
+        eps = 10.0 ** draw(st.sampled_from([-2, -4, -6, -8, -9, -10, -3, -7]))
+        roots.append([k, eps])
+    nb = draw(st.integers(0, 3))
+    b = [[draw(coef), draw(coef)] for _ in range(nb)]
+    return {"nfft": nfft, "roots": roots, "b": b, "rho": draw(st.sampled_from([1.0, 0.5, 3.0])), "T": draw(st.sampled_from([1.0, 2.0, 1000.0])),
+            "conj_pairs": draw(st.booleans())}
+
+
+@sub("C08.narrow", strategy=narrow_case(), quick=600, thorough=20000,
+     doc="arma2psd for stable AR polynomials with roots at radius 1-1e-2..1-1e-10 on grid angles: equals (rho/T)|B|^2/|A|^2 with "
+         "A evaluated from its roots (per-bin rtol 1e-9 + 4e-15/|A(f)|: the rounding of the coefficient FFT)")
+def c08_narrow(ctx, case):
+    nfft, rho, T = case["nfft"], case["rho"], case["T"]
+    zs = []
+    for k, eps in case["roots"]:
+        z = (1.0 - eps) * np.exp(2j * np.pi * k / nfft)
+        zs.append(z)
+        if case["conj_pairs"] and abs(z.imag) > 1e-12:
+            zs.append(np.conj(z))
+    A = np.poly(zs)                      # monic, coefficients of z^p + a1 z^(p-1) + ...
+    a = np.asarray(A[1:], dtype=complex)
+    if case["conj_pairs"]:
+        a = a.real.astype(complex) if np.max(np.abs(a.imag)) < 1e-14 else a
+    bvec = _vec(case["b"]) if case["b"] else None
+    if bvec is not None and float(np.sum(np.abs(bvec))) > 0.9:
+        bvec = bvec * 0.9 / float(np.sum(np.abs(bvec)))        # B(f) bounded away from zero: the narrow band is in A only
+    if len(a) + 1 >= nfft or (bvec is not None and len(bvec) + 1 >= nfft):
+        ctx.exclude("NFFT <= polynomial length")
+        return
+    got = np.real(np.asarray(spectrum.arma2psd(A=a, B=bvec, rho=rho, T=T, NFFT=nfft)))
+    f = np.arange(nfft) / float(nfft)
+    e = np.exp(2j * np.pi * f)
+    # A(f) = sum_j a_j e^{-2 pi i f j} = prod_j (1 - z_j e^{-2 pi i f})   (evaluated from the roots: no cancellation)
+    Af = np.ones(nfft, dtype=complex)
+    for z in zs:
+        Af = Af * (1.0 - z / e)
+    Bf = ref.polyval_unit(np.concatenate(([1.0], bvec)) if bvec is not None else [1.0], f)
+    exp = (rho / T) * np.abs(Bf) ** 2 / np.abs(Af) ** 2
+    sa = float(np.sum(np.abs(np.concatenate(([1.0], a)))))
+    if float(np.min(np.abs(Af))) < 1e-11 * sa:
+        ctx.exclude("|A(f)| below 1e-11*sum|a| at a grid bin: not resolvable from the coefficients in double precision")
+        return
+    rtol = 1e-9 + 4e-15 * sa / np.abs(Af)
+    ctx.cls("min|A|<1e-7" if float(np.min(np.abs(Af))) < 1e-7 else "min|A|>=1e-7", "odd" if nfft % 2 else "even",
+            "real coefficients" if case["conj_pairs"] else "complex coefficients")
+    ctx.nontrivial(float(np.min(np.abs(Af))) < 1e-3)
+    ctx.check(np.all(np.isfinite(got)) and np.all(got > 0), "arma2psd of a stable narrow-band model is not finite and positive")
+    bad = np.abs(got - exp) > rtol * exp
+    if np.any(bad):
+        i = int(np.argmax(np.abs(got - exp) / (rtol * exp)))
+        ctx.fail("arma2psd at bin %d where |A(f)| = %.3g: got %.6g, (rho/T)|B|^2/|A|^2 = %.6g (ratio %.4g, allowed relative error %.2g)"
+                 % (i, abs(Af[i]), got[i], exp[i], got[i] / exp[i], rtol[i]), sig={"clause": "narrow-band"})
